@@ -491,7 +491,7 @@ def _main_body(a, prop, seed, mod, run):
         # SOURCE-TIE hook (end)
         if a.replay:
             payload = json.load(open(a.replay))
-            if payload.get("kind") == "impl-exception":   # replay = the same deterministic run
+            if payload.get("kind") in ("impl-exception", "correspondence-broken"):   # replay = the same deterministic run
                 mod.run(run, Rng(payload.get("seed", seed), prop), payload.get("tier", run_tier))
             else:
                 mod.replay(run, payload)
@@ -554,6 +554,26 @@ def _main_body(a, prop, seed, mod, run):
                                   f"(re-run: VERIF_SEED={seed} ./check {prop} --tier {a.tier})", frames=frames)
             path = write_replay(prop, seed, "exc", payload)
             print(f"VIOLATION property={prop} replay={path}")
+            return 1
+        # The exception was raised in the property's own harness code (harness/cXX*.py) while it was digesting what the
+        # implementation returned (an answer used as an index / key / shape, a value of an unexpected kind, a private
+        # entry point that moved): the correspondence between model and implementation could not be established on
+        # this tree, and no generated input was shown to fail. Per the rule for a broken tie: reported, naming the
+        # correspondence that no longer checks, with no-failing-input-found. Infrastructure failures (driver, build,
+        # memory, OS, time-outs) stay harness errors (exit 2).
+        infra = isinstance(e, (MemoryError, OSError, subprocess.SubprocessError)) or (
+            isinstance(e, RuntimeError) and str(e).startswith(("driver failed", "Soft64 disagrees", "csep was imported")))
+        in_prop_harness = bool(re.search(r"/harness/c\d\d\w*\.py$", inner))
+        if in_prop_harness and not infra:
+            frames = [f"{os.path.basename(f.filename)}:{f.lineno} {f.name}" for f in tb[-8:]]
+            payload = dict(property=prop, kind="correspondence-broken", seed=seed, tier=a.tier,
+                           broken=f"correspondence harness of {prop} ({os.path.basename(inner)})",
+                           detail=f"the harness could not process the implementation's behaviour on this tree: "
+                                  f"{type(e).__name__}: {str(e)[:300]} (re-run: VERIF_SEED={seed} ./check {prop} "
+                                  f"--tier {a.tier}); no generated input was shown to violate the property",
+                           frames=frames)
+            path = write_replay(prop, seed, "corr", payload)
+            print(f"VIOLATION property={prop} replay={path} no-failing-input-found")
             return 1
         print(f"[{prop}] harness error (exit 2, not a verdict)")
         return 2
